@@ -212,11 +212,10 @@ def fuzzy0(p):
 
 
 class Oracle:
-    def __init__(self, env, quirks=(), ext=()):
+    def __init__(self, env, ext=()):
         self.env = env
         self.ext = {k: float(v) for k, v in ext}
         self.n = env["n"]
-        self.quirks = set(quirks)   # documented-vs-coded discrepancies to leave unjudged (used by classify only)
         self.divzero = False      # a division by zero happened: the evaluator may raise ZeroDivisionError instead of giving NaN
         self.undef = False        # an aggregate of no valid value: anything goes
 
@@ -267,9 +266,8 @@ class Oracle:
             e += ETA
         return mk(r, e)
 
-    def div(self, p, q, scalar=None):
-        """x / y; `scalar` says which operand is a number in the expression ("right": feature/number,
-        "left": number/feature) - only used to leave the reciprocal-overflow discrepancy unjudged (quirk)"""
+    def div(self, p, q):
+        """x / y (feature/feature, feature/number and number/feature alike: one correctly rounded quotient)"""
         if q.any or fuzzy0(q):
             self.divzero = True               # zero up to rounding: NaN, a huge value or ZeroDivisionError
             return ANYV
@@ -281,8 +279,6 @@ class Oracle:
             return ANYV
         if isnan(x) or isnan(y):
             return V(NAN)
-        if "reciprocal" in self.quirks and scalar and isinf(1.0 / y):
-            return ANYV
         if isinf(x) or isinf(y):
             return V(x / y)
         r = x / y
@@ -349,7 +345,7 @@ class Oracle:
     def lift(self, f, a, b):
         return [f(p, q) for p, q in zip(a, b)]
 
-    def binop(self, o, a, b, scalar=None):
+    def binop(self, o, a, b):
         if o == "+":
             return self.lift(self.add, a, b)
         if o == "-":
@@ -357,7 +353,7 @@ class Oracle:
         if o == "*":
             return self.lift(self.mul, a, b)
         if o == "/":
-            return self.lift(lambda p, q: self.div(p, q, scalar), a, b)
+            return self.lift(self.div, a, b)
         if o == "^":
             return self.lift(self.power, a, b)
         if o in "<>":
@@ -487,8 +483,6 @@ class Oracle:
             best = min(p.v for p in vals) if lo else max(p.v for p in vals)
             if f in ("MIN", "MAX"):
                 return V(best, max(p.err for p in vals))
-            if "arg-start" in self.quirks and best == (INF if lo else -INF):
-                return ANYV
             first = next(i for i, p in enumerate(a) if p.v == best)
             eb = a[first].err
             for i, p in enumerate(a):
@@ -536,19 +530,16 @@ class Oracle:
             return self.fn(t[1], self.ev(t[2]))
         if k == "prime":
             return self.binop("/", self.fn("D", self.col(t[1])), self.fn("D", self.col("t")))
-        scalar = None
-        if t[1] == "/":
-            scalar = "right" if not names_of(t[3]) else ("left" if not names_of(t[2]) else None)
-        return self.binop(t[1], self.ev(t[2]), self.ev(t[3]), scalar)
+        return self.binop(t[1], self.ev(t[2]), self.ev(t[3]))
 
 
-def pre_env(case, quirks=()):
+def pre_env(case):
     """the track as the statements run BEFORE the judged one leave it (columns become lists of V): the property applied
     to each earlier statement ('lhs=e' stores the value under lhs, nothing else changes; without '=' nothing changes).
     None when one of them has no value in ordinary arithmetic or may raise."""
     env = case["env"]
     for pre in case.get("pre", ()):
-        o = Oracle(env, quirks, case.get("ext", ()))
+        o = Oracle(env, case.get("ext", ()))
         try:
             vals = o.ev(pre["tree"])
         except (OutOfDomain, KeyError):
@@ -572,12 +563,12 @@ def pre_env(case, quirks=()):
     return env
 
 
-def oracle(case, quirks=()):
+def oracle(case):
     """(values | None when out of domain, divzero, undef)"""
-    env = pre_env(case, quirks)
+    env = pre_env(case)
     if env is None:
         return None, False, False
-    o = Oracle(env, quirks, case.get("ext", ()))
+    o = Oracle(env, case.get("ext", ()))
     try:
         vals = o.ev(case["tree"])
     except (OutOfDomain, KeyError):
@@ -711,7 +702,7 @@ class P(Prop):
         (M, "TV.C02.makeRPN_chars_show", "T2': character-level makeRPN (the definition the driver runs, fuel = string length) returns the postfix form of every printed tree with plain atoms"),
         (M, "TV.C02.operate_string_value", "T3': from the rewritten string '#output=e' on (makeRPN on characters, __double_prime, stack machine, fetch, purge) operate returns the tree semantics and leaves the track as it was"),
         (M, "TV.C02.operate_string_tokens", "string -> tokens: on the rewritten string of any statement 'lhs=e' with plain names operate does what it does on the postfix token list, so T3a-T3d apply to strings"),
-        (M, "TV.C02.tree_semantics_pointwise", "T5: under the laws x+s=s+x, x*s=s*x, x*(1/s)=x/s, (1/x)*s=s/x the evaluator's tree semantics (literal folding, s+/sr- tables) equals evaluation observation by observation with numbers as constant vectors"),
+        (M, "TV.C02.tree_semantics_pointwise", "T5: under the two laws x+s=s+x, x*s=s*x (true of IEEE doubles) the evaluator's tree semantics (literal folding, s+/sr- tables; a/number and number/a are single divisions since fix 5676890) equals evaluation observation by observation with numbers as constant vectors"),
         (M, "TV.C02.operate_string_pointwise", "end to end on the model: operate on the rewritten string '#output=e' returns the pointwise value of the tree and leaves the track unchanged"),
         (M, "TV.C02.operator_objects_agree", "T4: operator objects applied directly return the tree semantics of the one-node expression (a.b, a.number, number.a, f{a}) for the 7 binary operators, their 14 scalar forms, the 12 pointwise/void functions and the 12 aggregates"),
         (M, "TV.C02.evalRPN_postfix_error", "T6: when the tree semantics is an error (zero division by a number, 0**negative, complex/overflowing power, SQRT of a negative, EXP overflow, function of a number-valued sub-expression) the stack machine raises the same error, having added temporaries only"),
@@ -734,8 +725,8 @@ class P(Prop):
         (M, "TV.C02.operate_no_externals", "Track.operate(expr, {}) (the machine reading the dictionary of externals) is Track.operate(expr)"),
         (M, "TV.C02.getitem_is_operate", "front end: Track[expr] is Track.operate(expr) as soon as the stripped string contains one of + - / * ^ > < ( ) = ' { (the brace since fix 396f8f9)"),
         (M, "TV.C02.operate_source_bare_minus", "a bare unary minus at the start, after '=', '(' or '{' is the parenthesised '(0-...)' form (one per application)"),
-        (M, "TV.C02.aggregate_argmin_argmax", "T9: Argmin / Argmax as coded return the index of the FIRST observation holding the value Min / Max returns, whenever that value is strictly inside the start value (+inf / -inf) - the documented min {t | x(t) = min(x)}"),
-        (M, "TV.C02.aggregate_arg_start", "T9': when no value is strictly below +inf (above -inf) Argmin (Argmax) returns 0 whatever observation 0 holds (the residual finding argextremum-equal-to-start-value)"),
+        (M, "TV.C02.aggregate_argmin_argmax", "T9: Argmin / Argmax as coded (fix b728412) return the index of the FIRST observation holding the value Min / Max returns, as soon as the vector holds one number, +-inf included (ARGMIN{[nan, inf, inf]} = 1) - the documented min {t | x(t) = min(x)}"),
+        (M, "TV.C02.aggregate_arg_none", "T9': on an empty or all-NaN vector (the only case T9 leaves out; no documented index) no index is taken and Argmin / Argmax return 0"),
         (M, "TV.C02.finite_differences", "T10: D, I, D2 as coded are the documented recurrences y(0)=NaN, y(t)=x(t)-x(t-1); y(0)=0, y(t)=y(t-1)+x(t); y(t)=x(t+1)-2x(t)+x(t-1) with NaN at both ends; one value per observation (no law of arithmetic used)"),
         (M, "TV.C02.operate_source_prime", "T11: from the source string, the ' shorthand: operate on 'lhs=e' / 'e' whose names may end with a quote does what it does on the postfix tokens of the tree with every a' replaced by D{a}/D{t} (__double_prime: two passes)"),
         (M, "TV.C02.operate_source_sign_pair", "T12: a sign directly after a binary + or - ('a+-b', 'a--b', 'a++b', 'a-+b'): typing two signs in place of the binary sign they multiply to does not change what operate does (one pair per application)"),
@@ -743,17 +734,17 @@ class P(Prop):
     ]
     partial = []
     open_statements = [
-        "floating point: the laws of T5 (x*(1/s)=x/s, (1/x)*s=s/x) hold in exact arithmetic (shown for rationals with NaN) but only up to rounding for IEEE doubles - and not at all when the reciprocal overflows (subnormal divisor, class scalar-division-reciprocal-overflow); agreement of the computed doubles with ordinary arithmetic is decided by the transfer check against the independent Python oracle (IEEE evaluation of the documented definitions with a running error bound, relative tolerance 1e-9 at every magnitude)",
-        "the definitions of the functions (I D D2 ABS SQRT LOG DIODE SIGN EXP COS SIN TAN, SUM AVG VAR STD MSE RMSE MAD MIN MAX MEDIAN ARGMIN ARGMAX) are taken as coded in both denoteM and denote; their agreement with the documented formulas is checked by the Python oracle in the transfer check, not proved - except MIN / MAX (T8: the minimum / maximum of the non-NaN values at every magnitude), ARGMIN / ARGMAX (T9: the first index holding that extremum whenever it is strictly inside +-inf; T9': index 0 otherwise) and D, I, D2 (T10: the documented recurrences, index by index)",
+        "floating point: the two laws T5 still needs (x+s=s+x, x*s=s*x) are stated as hypotheses (shown for rationals with NaN; they hold of IEEE doubles, but Lean's Float is opaque); the reciprocal laws x*(1/s)=x/s, (1/x)*s=s/x are no longer needed since fix 5676890. T5 says that the evaluator performs the documented operations observation by observation; how far the computed doubles are from the real-number value of the expression (rounding) is decided by the transfer check against the independent Python oracle (IEEE evaluation of the documented definitions with a running error bound, relative tolerance 1e-9 at every magnitude)",
+        "the definitions of the functions (I D D2 ABS SQRT LOG DIODE SIGN EXP COS SIN TAN, SUM AVG VAR STD MSE RMSE MAD MIN MAX MEDIAN ARGMIN ARGMAX) are taken as coded in both denoteM and denote; their agreement with the documented formulas is checked by the Python oracle in the transfer check, not proved - except MIN / MAX (T8: the minimum / maximum of the non-NaN values at every magnitude), ARGMIN / ARGMAX (T9: the first index holding that extremum whenever the vector holds a number; T9': index 0 on an empty / all-NaN vector) and D, I, D2 (T10: the documented recurrences, index by index)",
         "source strings (T7): several bare unary minuses or several doubled signs in one string (T12 and the bare-minus theorem are stated for one rewriting per application; they do not compose, the intermediate string not being a printed tree) and names ending with '.' are outside the proved grammar (covered by the correspondence streams expr/str; the ' shorthand is proved since T11, for names that do not start with a quote; a sign directly after a binary + or - since T12); error propagation (T6) excludes unbound names, unknown function names and a function applied to a bare number token, where the machine raises another error than the tree semantics (counter-examples in Lemmas/ExprErr.lean)",
     ]
     modelled = ("Track.__evaluate (replace chain, __specialOpChar, __convertReflexOperator, __unaryOp, f( -> f@( loops, #output prefix), "
                 "utils.makeRPN at character level, Track.__prime/__double_prime, Track.__evaluateRPN, Track.__applyOperation, the purge of "
                 "Track.operate(str), create/update/remove/getAnalyticalFeature and addListToAF as an insertion-ordered name->column table, "
                 "operators Adder Substracter Multiplier Divider Power Above Below, ScalarAdder ScalarSubstracter ScalarRevSubstracter "
-                "ScalarMuliplier ScalarDivider ScalarRevDivider(Inverser) ScalarPower ScalarRevPower ScalarAbove/Below/RevAbove/RevBelow, "
+                "ScalarMuliplier ScalarDivider ScalarRevDivider (single divisions, coded like the other scalar operators: fixes 5676890, 2dd86ce) ScalarPower ScalarRevPower ScalarAbove/Below/RevAbove/RevBelow, "
                 "Integrator Differentiator SecondOrderFiniteDiff Rectifier Sqrt Log (with its track[out]=temp storing and None result) Diode Sign "
-                "Exp Cos Sin Tan (through Apply), Sum Averager Variance StdDev Mse Rmse Mad Min Max Median Argmin Argmax; Track.operate(operator, ...) "
+                "Exp Cos Sin Tan (through Apply), Sum Averager Variance StdDev Mse Rmse Mad Min Max Median Argmin Argmax (index None until a value is taken, fix b728412); Track.operate(operator, ...) "
                 "with the default output name; Track.__getitem__ with a string (expression or feature name); Track.operate(expression, externals) "
                 "(__evaluateRPN substituting the dictionary's values); the positions behind x, y, z are plain slots (getX / setX ... of ENUCoords, GeoCoords, "
                 "ECEFCoords alike: the model has one column per coordinate and is compared with tracks of the three classes). Not modelled (outside the property's operator list + - * / ^ < >): % (Modulo, s%, sr%), "
@@ -1497,16 +1488,9 @@ class P(Prop):
     def spec(self, case, out):
         if case.get("ext") and any(k in names_of_env(case["env"]) for k, _ in case["ext"]):
             return None      # an external named like a feature: which one wins is not stated anywhere (tie only: the model mirrors the code)
-        msg = self.judge(case, out)
-        if msg and case.get("kind") in ("expr", "op"):
-            cls = self.classify(case, out, msg)
-            if cls is not None and cls not in self.listed_classes():
-                # a discrepancy of a class reported by this check but not (yet) listed in known_findings.json: the engine
-                # excuses a class only when it is listed there, so until then the class is left unjudged (see QUIRKS)
-                return None
-        return msg
+        return self.judge(case, out)
 
-    def judge(self, case, out, quirks=()):
+    def judge(self, case, out):
         k = case["kind"]
         if k in ("malformed", "str"):
             return None
@@ -1525,10 +1509,10 @@ class P(Prop):
             return None
         if has_call_of_constant(case["tree"]):
             return None                      # a function applied to a number: outside the grammar (domain restriction)
-        vals, divzero, undef = oracle(case, quirks)
+        vals, divzero, undef = oracle(case)
         if vals is None:
             return None                      # no value in ordinary arithmetic (documented domain restriction)
-        env = pre_env(case, quirks) if case.get("pre") else case["env"]
+        env = pre_env(case) if case.get("pre") else case["env"]
         if k == "op":
             if undef:
                 return None
@@ -1563,40 +1547,13 @@ class P(Prop):
         return m or self.unchanged(env, out, except_name=lhs)
 
     # ---------------------------------------------------------------- known findings
-    # documented definition vs code (a class of known_findings.json):
-    #   reciprocal   x/number is coded x*(1.0/number) and number/x as (1.0/x)*number: when the reciprocal overflows
-    #                (|divisor| < 5.6e-309, a subnormal) the quotient comes out as inf / NaN although it is representable
-    # (ABS of an infinity, MIN/MAX/ARGMIN/ARGMAX beyond +-1e300 and Track['SUM{a}'] - classes of the previous round -
-    #  are repaired: 8378be5, 68863c7, 396f8f9; they are ordinary judged inputs, witnesses corpus/C02/fixed-*)
-    #   arg-start    ARGMIN / ARGMAX keep index 0 unless a value is strictly below +inf / above -inf: when the extremum of the
-    #                numbers is that infinity itself and observation 0 is NaN (or there is a NaN before it), the index
-    #                of a NaN comes back (residual of fix 68863c7; MIN / MAX themselves are right)
-    QUIRKS = {"reciprocal": "scalar-division-reciprocal-overflow", "arg-start": "argextremum-equal-to-start-value"}
-
+    # none. Every class this check once listed is repaired in /repo and is an ordinary judged input now; the witnesses
+    # are corpus regression cases (corpus/C02/fixed-*, d21-*, d22-*), run first on every run:
+    #   'a>(b+1)' 6716f85, 'x=3' 144a468, ABS of an infinity 8378be5, MIN/MAX/ARGMIN/ARGMAX beyond +-1e300 68863c7,
+    #   Track['SUM{a}'] 396f8f9, a/number and number/a through a reciprocal (overflow for a subnormal divisor) 5676890,
+    #   ARGMIN / ARGMAX when the extremum is the start value +-inf itself and a NaN precedes it b728412
     def classify(self, case, impl_out, msg):
-        """a failing case belongs to a class iff leaving exactly that discrepancy unjudged makes the oracle accept the
-        implementation's output ('a>(b+1)' (fix 6716f85) and 'x=3' (fix 144a468) are ordinary inputs now: witnesses
-        in corpus/C02/d21-*, d22-*)"""
-        if case.get("kind") not in ("expr", "op") or not msg or not isinstance(impl_out, dict) or "err" in impl_out:
-            return None
-        for q, name in self.QUIRKS.items():
-            try:
-                if self.judge(case, impl_out, quirks=(q,)) is None:
-                    return name
-            except Exception:
-                pass
         return None
-
-    _listed = None
-
-    def listed_classes(self):
-        if P._listed is None:
-            try:
-                with open(os.path.join(os.path.dirname(os.path.dirname(os.path.dirname(os.path.abspath(__file__)))), "known_findings.json")) as fh:
-                    P._listed = {e.get("class") for e in json.load(fh).get("entries", []) if e.get("property") == "C02" and e.get("status") == "finding"}
-            except Exception:
-                P._listed = set()
-        return P._listed
 
     # ---------------------------------------------------------------- shrinking / search
     def shrink(self, case):
